@@ -735,6 +735,10 @@ def replay_slot(rp):
     ok, text, why = samples.roundtrip(_native_unparse(), node)
     if not ok:
         return dict(reproduced=True, input_tree=ast.dump(node), reference_text=_safe_unparse(node), output=text, why=why)
+    # the slot may misbehave only next to siblings: all stored shapes of the parent kind
+    rep = replay_kind(dict(kindname=parent))
+    if rep.get("reproduced"):
+        return rep
     return dict(reproduced=False, input_tree=ast.dump(node), output=text)
 
 
